@@ -5,6 +5,7 @@ import JaxVerif.Model.HookAst
 import JaxVerif.Generated.Hook
 import JaxVerif.Lemmas.HookAst
 import JaxVerif.Generated.HookCode
+import JaxVerif.Source.Loader
 
 namespace JV
 
@@ -89,5 +90,11 @@ theorem C10_source_visitors (l : Loc) (decos kids : List Node) :
   · simp [runVisitor, Generated.visitFunctionDefCode, HStmt.run, transform, transformList_append, transformList, transform_decoNode]
   · simp [runVisitor, Generated.visitClassDefCode, HStmt.run, transform, transformList_append, transformList, transform_decoNode]
   · simp [runVisitor, Generated.visitModuleCode, HStmt.run, transformModule, transformList_append, transformList, transform_decoNode]
+
+/-- what a hooked import compiles, from the source read today (harness/translate_loader.py): the bytes decoded by
+    `decode_source` (coding cookie, BOM), parsed, passed through the transformer above, located, and nothing else -/
+theorem C10_source_to_code (key : String) (writes : Bool) (gc : LSt → LRes) (active : Option String) :
+    Generated.sourceToCodeCode.run key writes gc (LSt.fresh active) = .code ⟨true, true⟩ :=
+  source_loader_to_code key writes gc active
 
 end JV
